@@ -31,7 +31,7 @@ for p in props:
                 "by CPython on symbolic integers/digits (re-execution DFS over every feasible path), each path's claims are "
                 "discharged by z3 as PC && !claim; unsat on every path = the property holds for every input inside the stated "
                 "bounds; sat models are replayed on the unmodified library (C datetime/zoneinfo) before being reported."),
-            design_ref=getattr(mod, "DESIGN_REF", "DESIGN.md section 5 " + pid)),
+            design_ref=getattr(mod, "DESIGN_REF", "DESIGN.md sections 0.3 (what is decided, bounds) and 5 (" + pid + ")")),
         level_note=getattr(mod, "LEVEL_NOTE", None) or ("; ".join(getattr(mod, "ASSUMPTIONS", [])) +
                     " | outside the claim: " + "; ".join(getattr(mod, "OUTSIDE", []))),
         technique=getattr(mod, "TECHNIQUE", "symbolic execution of the real Python source on linear-form integers + z3 (SMT), "
